@@ -243,6 +243,12 @@ void Socket::close()
     d->writeState = SocketPrivate::WriteFinished;
 
     connect(d->socket, &QTcpSocket::disconnected, this, &Socket::deleteLater);
+
+    // Hand everything written so far to the transport before shutting it; a
+    // QSslSocket emits bytesWritten() before the encrypted data has reached
+    // the underlying socket, so without this a close() made from a slot
+    // connected to bytesWritten() loses the end of the response
+    d->socket->flush();
     d->socket->close();
 }
 
